@@ -31,7 +31,15 @@ func fwd(tok string, shape int) string {
 		v = "[" + tok + "]"
 	}
 	q := `"` + v + `"`
-	switch shape % 8 {
+	switch shape % 12 {
+	case 8:
+		return ";for=" + q // an empty parameter (no '=') in front: skipped
+	case 9:
+		return "secure;for=" + q // a parameter without '=' in front: skipped
+	case 10:
+		return "by=203.0.113.9; ;for=" + q // a blank parameter between two others
+	case 11:
+		return "proto=https;;host=h;for=" + q // an empty parameter counts among the first four
 	case 5:
 		return "a=1;b=2;c=3;for=" + q // exactly the fourth parameter, last
 	case 6:
@@ -237,7 +245,7 @@ func runLists(c *mc.Ctx, r *mc.Result) {
 		maxEntries = 3
 	}
 	rds := resolvers()
-	r.Bounds["lists"] = fmt.Sprintf("all header lists of <=%d entries over a %d-token alphabet, split over 1 or 2 header lines (<=3 entries per line), as X-Forwarded-For and as Forwarded (8 element shapes) x %d resolvers; for the rightmost strategies every list that selects an entry is re-run behind %d attacker prefixes (same line and extra line)", maxEntries, len(tokens), len(rds), len(attackerPrefixes))
+	r.Bounds["lists"] = fmt.Sprintf("all header lists of <=%d entries over a %d-token alphabet, split over 1 or 2 header lines (<=3 entries per line), as X-Forwarded-For and as Forwarded (12 element shapes) x %d resolvers; for the rightmost strategies every list that selects an entry is re-run behind %d attacker prefixes (same line and extra line)", maxEntries, len(tokens), len(rds), len(attackerPrefixes))
 	type built struct{ x, f fox.ClientIPResolver }
 	bs := make([]built, len(rds))
 	for i, rd := range rds {
